@@ -108,6 +108,10 @@ func c14Case(c *caseCtx) {
 			cr.Type, sn.Cost, sn.Type = model.Cost, true, "cost"
 		}
 		kind := r.Intn(4)
+		mag := 1.0
+		if r.Intn(8) == 0 {
+			mag = []float64{1e7, 1e9, 1e12, 1e-9}[r.Intn(4)] // yen, populations, bytes; nanometres
+		}
 		for i := 0; i < na; i++ {
 			var v float64
 			switch kind {
@@ -122,13 +126,14 @@ func c14Case(c *caseCtx) {
 					v = r.Float64()*30 - 5
 				}
 			}
-			vals[i][id] = v
+			vals[i][id] = v * mag
 		}
 		if kind == 2 {
 			lo, hi := -16.0, 64.0
 			if !dyadic {
 				lo, hi = -7.3, 41.9
 			}
+			lo, hi = lo*mag, hi*mag
 			cr.ValuesRange = &utils.ValueRange{Min: lo, Max: hi}
 			sn.HasRng, sn.Lo, sn.Hi = true, lo, hi
 		}
